@@ -368,6 +368,10 @@ def _shift_stmt(st, off):
     return [st[0]] + [_shift(v, off) for v in st[1:]]
 
 
+def _file_of(span):
+    return (span or "?").split(":")[0]
+
+
 def inline_helpers(P, fn, max_depth=3):
     """Return a Body for `fn` in which calls to non-public, non-recursive workspace functions of the same impl/module
     are replaced by the callee's blocks (arguments assigned to the callee's parameters, `return` replaced by an
@@ -381,10 +385,15 @@ def inline_helpers(P, fn, max_depth=3):
     inlined = []
     result_locals = []
     budget = 12
+    cbudget = 24
 
     def eligible(g):
         G = P.bodies.get(g)
-        if G is None or G.pub or G.kind == "closure" or not g.startswith(prefix) or g == fn:
+        if G is None or G.pub or G.kind == "closure" or g == fn:
+            return False
+        # a private function of the same impl / module, or of the same source file (a free helper next to a trait's
+        # provided method, a helper in a sibling impl block)
+        if not g.startswith(prefix) and not (G.krate == F.krate and _file_of(G.span) == _file_of(F.span)):
             return False
         # not recursive
         seen, st = set(), [g]
@@ -443,16 +452,106 @@ def inline_helpers(P, fn, max_depth=3):
                     nb["term"] = nt
                     j["blocks"].append(nb)
                     depth[boff + gi] = depth.get(i, 0) + 1
+            elif kind != "ws" and cbudget > 0 and len(j["blocks"]) < 4000 and _closure_host(t):
+                # closures handed to a std/core/alloc combinator (iterator adaptors, Option/Result combinators,
+                # bool::then, retain, sort_by ...): the combinator calls them zero or more times.  Spliced in front of
+                # the call as a loop `head: nondet -> closure body -> head | call`, the environment parameter bound
+                # to the closure value, the other parameters to the receiver, the closure's result made an extra
+                # operand of the call.  (Same approximation as reach-matchers: a lazily evaluated adaptor's closure is
+                # placed where the adaptor is built.)
+                cls = []
+                for a in t["args"]:
+                    pl = op_place(a)
+                    if pl is None or pl["p"]:
+                        continue
+                    cal = j["locals"][pl["l"]].get("callable") or ""
+                    if cal.startswith("closure:") and cal[8:] in P.bodies and len(P.bodies[cal[8:]].blocks) <= 400:
+                        cls.append((pl["l"], P.bodies[cal[8:]]))
+                if cls:
+                    recv = next((a for a in t["args"] if op_place(a) is not None and op_place(a)["l"] not in
+                                 [c[0] for c in cls]), None)
+                    nd = len(j["locals"])
+                    j["locals"] = j["locals"] + [{"ty": "usize"}]
+                    head = len(j["blocks"])
+                    callb = head + 1
+                    j["blocks"].append({"stmts": [], "cleanup": False, "term": None})
+                    call_t = dict(t)
+                    call_t["args"] = list(t["args"])
+                    call_t["spliced"] = [c[1].id for c in cls]
+                    j["blocks"].append({"stmts": [], "cleanup": False, "term": call_t})
+                    depth[head] = depth[callb] = max_depth   # the moved call itself is final
+                    blk["term"] = {"k": "goto", "target": head}
+                    targets = []
+                    for n_, (cl_local, G) in enumerate(cls):
+                        cbudget -= 1
+                        inlined.append(G.id)
+                        loff = len(j["locals"])
+                        boff = len(j["blocks"])
+                        j["locals"] = j["locals"] + list(G.locals)
+                        for name, place in G.vars:
+                            j["vars"].append([name, _shift_place(place, loff)])
+                        entry = len(j["blocks"]) + len(G.blocks)
+                        # parameter binding block
+                        bind = []
+                        env_ty = G.locals[1]["ty"] if G.arg_count >= 1 else ""
+                        if G.arg_count >= 1:
+                            if env_ty.startswith("&"):
+                                bind.append(["assign", {"l": loff + 1, "p": []}, {"k": "ref", "place": {"l": cl_local, "p": []}},
+                                             t.get("span", "?")])
+                            else:
+                                bind.append(["assign", {"l": loff + 1, "p": []}, {"k": "use", "ops": [{"c": {"l": cl_local, "p": []}}]},
+                                             t.get("span", "?")])
+                        if recv is not None:
+                            rp = op_place(recv)
+                            for k in range(2, G.arg_count + 1):
+                                bind.append(["assign", {"l": loff + k, "p": []}, {"k": "use", "ops": [{"c": rp}]}, "<closure-param>"])
+                        for gi, gb in enumerate(G.blocks):
+                            nb = {"stmts": [_shift_stmt(s_, loff) for s_ in gb["stmts"]], "cleanup": gb.get("cleanup", False)}
+                            gt = gb["term"]
+                            nt = _shift(gt, loff)
+                            for key in ("target", "unwind", "otherwise"):
+                                if isinstance(gt.get(key), int):
+                                    nt[key] = gt[key] + boff
+                            if gt["k"] == "switch":
+                                nt["targets"] = [[v, b + boff] for v, b in gt["targets"]]
+                            if gt["k"] == "return":
+                                nt = {"k": "goto", "target": head}
+                            nb["term"] = nt
+                            j["blocks"].append(nb)
+                            depth[boff + gi] = depth.get(i, 0) + 1
+                        j["blocks"].append({"stmts": bind, "cleanup": False, "term": {"k": "goto", "target": boff}})
+                        depth[entry] = max_depth
+                        targets.append([str(n_), entry])
+                        call_t["args"].append({"c": {"l": loff, "p": []}})
+                    j["blocks"][head]["term"] = {"k": "switch", "op": {"c": {"l": nd, "p": []}}, "targets": targets,
+                                                 "otherwise": callb}
         i += 1
     if not inlined:
-        return F, []
+        j2 = dict(j)
+        nb = _thread_results(j2, set())
+        if nb is None or len(nb) == len(j["blocks"]):
+            return F, []
+        j2["blocks"] = nb
+        j2["hkey"] = F.id + "#threaded"
+        return Body(j2), []
     tracked = {l for l in result_locals if j["locals"][l]["ty"].startswith("core::result::Result<")}
-    if tracked:
-        nb = _thread_results(j, tracked)
-        if nb is not None:
-            j["blocks"] = nb
+    nb = _thread_results(j, tracked)
+    if nb is not None:
+        j["blocks"] = nb
     B = Body(j)
     return B, inlined
+
+
+NO_CLOSURE_INLINE = re.compile(r"^(std::thread|rayon|rayon_core|std::sync::mpsc|std::panic)")
+
+
+def _closure_host(t):
+    c = t["callee"]
+    path = c.get("path") or ""
+    kr = c.get("krate") or path.split("::")[0]
+    if kr not in ("core", "alloc", "std"):
+        return False
+    return not NO_CLOSURE_INLINE.match(path) and not NO_CLOSURE_INLINE.match(c.get("rpath") or "")
 
 
 def _thread_results(j, tracked):
@@ -463,6 +562,27 @@ def _thread_results(j, tracked):
     the infeasible edge of the deciding switch removed.  Returns the new block list, or None when the product
     would grow beyond a small factor."""
     blocks = j["blocks"]
+    # bool locals that some switch branches on directly and that are assigned constants somewhere
+    switched = set()
+    dropflags = set()
+    for blk in blocks:
+        t = blk["term"]
+        if t and t["k"] == "switch":
+            l = op_local(t["op"])
+            if l is not None and not op_place(t["op"])["p"] and j["locals"][l]["ty"] == "bool":
+                succs = [bb for _, bb in t["targets"]] + [t["otherwise"]]
+                if any(blocks[x]["term"] and blocks[x]["term"]["k"] == "drop" for x in succs):
+                    dropflags.add(l)      # drop-elaboration flags live for the whole body: not threaded
+                switched.add(l)
+    switched -= dropflags
+    boolsw = set()
+    for blk in blocks:
+        for s_ in blk["stmts"]:
+            if s_[0] == "assign" and not s_[1]["p"] and s_[1]["l"] in switched and s_[2]["k"] == "use" and s_[2].get("ops") \
+                    and "k" in s_[2]["ops"][0]:
+                boolsw.add(s_[1]["l"])
+    if not tracked and not boolsw:
+        return None
 
     def step(b, st):
         st = dict(st)
@@ -482,6 +602,12 @@ def _thread_results(j, tracked):
                     new = st[src["l"]]
                     if "m" in rv["ops"][0]:
                         st.pop(src["l"])
+                elif src is None and l in boolsw:
+                    # `_m = const true/false` in the arms of a `matches!` / `&&` / `||`, consumed by a later switch
+                    kv = rv["ops"][0].get("k") or {}
+                    v = kv.get("v")
+                    if v in ("true", "false", "0", "1", 0, 1, True, False):
+                        new = ("d", 1 if v in ("true", "1", 1, True) else 0)
             elif k == "discr" and not rv["place"]["p"] and rv["place"]["l"] in st and not isinstance(st[rv["place"]["l"]], tuple):
                 new = ("d", 0 if st[rv["place"]["l"]] in ("Ok", "Continue") else 1)
             if new is not None:
